@@ -1,7 +1,7 @@
 """C06 - implicit (incomplete eigenvectors) mode equals the explicit computation."""
 from .common import Decision, run_units
 from .series_props import specs_evals, specs_wiring, fold_canaries
-from .format_props import specs_projection, specs_linalg_misc
+from .format_props import specs_projection, specs_linalg_misc, specs_head
 from .relational_common import NAT_LEAN, NAT_LEAN_NH, NAT_NOTE, INSTANCE_NOTE
 
 LP = "contracts.linalg_projector"
@@ -11,7 +11,7 @@ def check(tier, seed):
     d = Decision("C06", tier, seed)
     t = 60000 if tier == "thorough" else 10000
     specs = (specs_projection(tier, implicit_only=True) + [(LP, "unit_projector", {"variant": v, "timeout_ms": t}) for v in ("left-none", "left-same", "left-other")]
-             + specs_evals(tier) + specs_wiring(tier) + specs_linalg_misc(tier))
+             + specs_evals(tier) + specs_wiring(tier) + specs_linalg_misc(tier) + specs_head(tier))
     try:
         from .implicit_props import specs_direct
         specs += specs_direct(tier)
